@@ -214,10 +214,13 @@ def register_builders() -> None:
             parallel = bool(syn.get("parallel"))
         for i, b in enumerate(scripts):
             label = f"{stage.name}/{kind}{i}"
-            script = [{"b": b}]
+            script = [{"b": "fail" if b == "failcof" else b}]
+            cctx: dict[str, Any] = {"_v": {"tasks": script}}
+            if b == "failcof":
+                cctx["continuePipelineOnFailure"] = True  # the child itself is marked continue-on-failure
             child = StageExecution.create_synthetic(
                 type="vchild", name=label, parent=stage, owner=owner,
-                context={"_v": {"tasks": script}},
+                context=cctx,
             )
             # ids/ref_ids stay the engine's own random ULIDs (what real builders produce); the ledger
             # identifies children by their name
